@@ -193,6 +193,8 @@ def fresh(kind: str, hint: str = "v") -> V:
         return VVal(z3.Const(n, Val))
     if kind == "func":
         return VFunc(hint)
+    if kind == "strconst":
+        return VStrConst("<" + hint + ">")  # a string used only as a tag (never inspected)
     if kind == "str" or kind.startswith("list[") or kind.startswith("list3["):
         return VSeq(kind, z3.Const(n, sort_of(kind)))
     if kind.startswith("opt["):
